@@ -6,6 +6,8 @@ import (
 	"go/token"
 	"go/types"
 	"reflect"
+
+	"golang.org/x/tools/go/ssa"
 )
 
 // RunXYTwins: SimpleGlyph.Decode reads the x coordinates and then the y
@@ -273,4 +275,97 @@ func isoChildren(n ast.Node) []ast.Node {
 	}
 	_ = token.NoPos
 	return out
+}
+
+// RunComponentSize: the component record of a composite glyph is followed by
+// arguments whose size the flags determine (TrueType specification, glyf
+// table): two words or two bytes for the offsets (ARG_1_AND_2_ARE_WORDS),
+// then one F2Dot14 for WE_HAVE_A_SCALE, two for WE_HAVE_AN_X_AND_Y_SCALE,
+// four for WE_HAVE_A_TWO_BY_TWO. decodeGlyphComposite adds these sizes up
+// under bit tests of the flags word; the rule reads the (mask, polarity,
+// increment) triples off the code and compares them with the table.
+func RunComponentSize(w *World, r *Report) {
+	r.Rule("componentsize: in glyf.decodeGlyphComposite the constant increments of the argument size, each taken under its nearest bit test of the component flags, are exactly: +4 with bit 0x0001 set and +2 with it clear, +2 under 0x0008, +4 under 0x0040, +8 under 0x0080 (the sizes the TrueType specification gives for component arguments and transformations)")
+	fn := w.Func("glyf.decodeGlyphComposite")
+	if fn == nil {
+		r.Fatal("glyf.decodeGlyphComposite does not resolve")
+		return
+	}
+	type triple struct {
+		mask int64
+		set  bool
+		inc  int64
+	}
+	want := map[triple]bool{{1, true, 4}: true, {1, false, 2}: true, {8, true, 2}: true, {0x40, true, 4}: true, {0x80, true, 8}: true}
+	got := map[triple]string{}
+	for _, b := range fn.Blocks {
+		for _, in := range b.Instrs {
+			bo, ok := in.(*ssa.BinOp)
+			if !ok || bo.Op != token.ADD || !isIntegerType(bo.Type()) {
+				continue
+			}
+			c, ok := bo.Y.(*ssa.Const)
+			if !ok || c.Value == nil {
+				continue
+			}
+			// the sum must be (part of) the size that cuts the data slice
+			if !flowsToSliceBound(bo, map[ssa.Value]bool{}, 0) {
+				continue
+			}
+			gs := guardsOf(b)
+			if len(gs) == 0 {
+				continue
+			}
+			m, setOnTrue, ok := bitTestMask(gs[0].cond)
+			if !ok {
+				continue
+			}
+			got[triple{m, setOnTrue == gs[0].then, c.Int64()}] = w.Pos(bo.Pos())
+		}
+	}
+	name := "glyf.decodeGlyphComposite"
+	for t := range want {
+		key := r.MkKey("componentsize", name, fmt.Sprintf("mask %#x set=%v", t.mask, t.set))
+		if pos, ok := got[t]; ok {
+			r.OK("componentsize", key, pos, fmt.Sprintf("+%d", t.inc))
+		} else {
+			r.Fail("componentsize", key, w.Pos(fn.Pos()), fmt.Sprintf("no increment of %d bytes under component flag %#x (%s): a component with that flag is given arguments of the wrong size and the components behind it are read from the wrong place", t.inc, t.mask, map[bool]string{true: "set", false: "clear"}[t.set]), nil)
+		}
+	}
+	for t, pos := range got {
+		if !want[t] {
+			key := r.MkKey("componentsize", name, fmt.Sprintf("extra mask %#x set=%v +%d", t.mask, t.set, t.inc))
+			r.Fail("componentsize", key, pos, fmt.Sprintf("the argument size grows by %d bytes under component flag %#x (%s), which the specification does not provide for", t.inc, t.mask, map[bool]string{true: "set", false: "clear"}[t.set]), nil)
+		}
+	}
+}
+
+// flowsToSliceBound: the value reaches (through phis and additions) the low
+// or high bound of a slice expression.
+func flowsToSliceBound(v ssa.Value, seen map[ssa.Value]bool, depth int) bool {
+	if seen[v] || depth > 12 {
+		return false
+	}
+	seen[v] = true
+	refs := v.Referrers()
+	if refs == nil {
+		return false
+	}
+	for _, ref := range *refs {
+		switch x := ref.(type) {
+		case *ssa.Slice:
+			if x.Low == v || x.High == v {
+				return true
+			}
+		case *ssa.Phi:
+			if flowsToSliceBound(x, seen, depth+1) {
+				return true
+			}
+		case *ssa.BinOp:
+			if x.Op == token.ADD && flowsToSliceBound(x, seen, depth+1) {
+				return true
+			}
+		}
+	}
+	return false
 }
